@@ -420,14 +420,17 @@ package bpmn
 //@   ensures result == t.response
 
 // Do: a call either observes that the request is already decided (done closed or signalled) and does nothing,
-// or forwards exactly one answer; it never sends twice.
+// or forwards exactly one answer, or - the one-slot forward buffer being taken by an earlier answer - drops its own;
+// it never sends twice and never blocks.
 //@ func (*taskTrace).Do
 //@   prop C08
+//@   flag nonblocking
 //@   requires forall k int :: 0 <= k && k < len(options) ==> options[k] != nil
-//@   ensures [decided-request-is-left-alone-else-one-answer-forwarded]
+//@   ensures [decided-request-is-left-alone-else-one-answer-forwarded-or-dropped]
 //@           (evlen == old(evlen) + 1 && isRecv(ev(old(evlen))) && evch(ev(old(evlen))) == t.done) ||
 //@           (evlen > old(evlen) && isSend(ev(evlen - 1)) && evch(ev(evlen - 1)) == t.forward &&
-//@             forall p int :: old(evlen) <= p && p < evlen - 1 ==> isOpaque(ev(p)))
+//@             forall p int :: old(evlen) <= p && p < evlen - 1 ==> isOpaque(ev(p))) ||
+//@           (forall p int :: old(evlen) <= p && p < evlen ==> isOpaque(ev(p)))
 //@   ensures [at-most-one-forward] forall p int, q int :: old(evlen) <= p && p < q && q < evlen && isSend(ev(p)) ==> !isSend(ev(q))
 
 // process: relays at most one answer to the waiting task goroutine and closes done at most once.
